@@ -14,7 +14,7 @@ from symx import core
 
 PID = "C02"
 EXPLANATION = (
-    "The solver chooses HTTP version (1.0/1.1), method (GET/HEAD/POST/PUT), request body (none/bytes/async stream/json=/form dict), Expect: 100-continue on/off, a per-request cookie on/off, "
+    "The solver chooses HTTP version (1.0/1.1), method (GET/HEAD/POST/PUT), request body (none/bytes/async stream/json=/form dict), Expect: 100-continue on/off, a per-request cookie on/off, a handler that reads the body or answers without reading it, "
     "request Connection header (absent/close/keep-alive), response status (200/204/304/404), reason phrase (default / one with inner runs of whitespace), response body kind (empty, "
     "bytes with Content-Length, chunked stream, stream of unknown length), force_close, and where each direction's "
     "bytes are cut into two reads. A real ClientSession talks to a real web.Application through two in-memory transports "
@@ -58,8 +58,10 @@ def _exchange(ctx, version, methods, kinds, deep):
     req_body = ctx.pick("req_body", ["none", "bytes", "stream", "json", "form"]) if method in ("POST", "PUT") else "none"
     expect100 = ctx.flag("expect_100_continue") if req_body != "none" else False
     send_cookie = ctx.flag("request_cookie")
+    # a handler that answers without looking at the request body (the server then drains it itself)
+    ignore_body = ctx.flag("handler_ignores_body") if req_body == "bytes" else False
     # quick tier: the newer dimensions (json/form bodies, Expect, cookie) are added to the product, not multiplied into it
-    light = not deep and (req_body in ("json", "form") or expect100 or send_cookie)
+    light = not deep and (req_body in ("json", "form") or expect100 or send_cookie or ignore_body)
     conn_hdr = ctx.pick("connection_header", [None] if light else [None, "close", "keep-alive"])
     status = ctx.pick("status", [200] if light else [200, 204, 304, 404])
     kind = ctx.pick("resp_body", list(kinds))
@@ -75,7 +77,7 @@ def _exchange(ctx, version, methods, kinds, deep):
     tmpfiles = []
 
     async def handler(request):
-        body = await request.read()
+        body = b"" if (ignore_body and len(seen) == 0) else await request.read()
         seen.append((request.method, request.path_qs, request.headers.get("X-Marker"), bytes(body)))
         seen_cookies.append(request.cookies.get("ck"))
         tag = f"resp{len(seen)}".encode()
@@ -141,7 +143,8 @@ def _exchange(ctx, version, methods, kinds, deep):
                                      version=aiohttp.HttpVersion10 if version == "1.0" else aiohttp.HttpVersion11)
 
     session = loop.run_until_complete(mk())
-    cut_c = ctx.pick("cut_request_bytes", [0, 1, 17, 40, 10 ** 6] + ([200, 2100] if deep else []))
+    # (-2: two bytes before the end of what the client has written so far, i.e. inside a short body)
+    cut_c = ctx.pick("cut_request_bytes", [0, 1, 17, 40, 10 ** 6] + ([200, 2100] if deep else []) + ([-2] if req_body == "bytes" else []))
     cut_s = ctx.pick("cut_response_bytes", [0, 1, 17, 40, 90, 10 ** 6] + ([150, 2100, 65600] if deep else []))
 
     def pump():
@@ -150,7 +153,8 @@ def _exchange(ctx, version, methods, kinds, deep):
             new = bytes(ln["ctr"].out)[ln["cpos"]:]
             if new and not ln["s_lost"]:
                 ln["cpos"] += len(new)
-                for piece in ([new[:cut_c], new[cut_c:]] if 0 < cut_c < len(new) else [new]):
+                cc = cut_c if cut_c >= 0 else max(1, len(new) + cut_c)
+                for piece in ([new[:cc], new[cc:]] if 0 < cc < len(new) else [new]):
                     if piece and not ln["str"].closed:
                         ln["sproto"].data_received(piece)
                         loop.run_ready()
@@ -216,7 +220,7 @@ def _exchange(ctx, version, methods, kinds, deep):
 
     def fail(key, **kw):
         info = {"key": key, "version": version, "method": method, "req_body": req_body, "connection": conn_hdr,
-                "status": status, "reason": reason, "resp_body": kind, "expect100": expect100, "cookie": send_cookie, "force_close": force_close, "cuts": [cut_c, cut_s],
+                "status": status, "reason": reason, "resp_body": kind, "expect100": expect100, "cookie": send_cookie, "handler_ignores_body": ignore_body, "force_close": force_close, "cuts": [cut_c, cut_s],
                 "seen": [[str(x)[:60] for x in s] for s in seen], "results": [[str(x)[:60] for x in r] for r in results]}
         info.update(kw)
         if links:
@@ -261,7 +265,7 @@ def _exchange(ctx, version, methods, kinds, deep):
     if r1[1] == "error":
         return fail("exchange-fails:" + str(r1[2]))
     # ---- request as seen by the handler
-    want_body = req_payload if req_body in ("bytes", "stream") else \
+    want_body = b"" if ignore_body else req_payload if req_body in ("bytes", "stream") else \
         (b'{"k": "v"}' if req_body == "json" else (b"a=b+c&d=%C3%A9" if req_body == "form" else b""))
     if seen and req_body in ("json", "form"):
         # compare what the body says, not how this client version happens to spell it
@@ -306,7 +310,10 @@ def _exchange(ctx, version, methods, kinds, deep):
     loop.run_ready()
     server_keeps = not ln["str"].closed
     client_keeps = any(conns for conns in session.connector._conns.values()) and not ln["ctr"].closed
-    if server_keeps != client_keeps and not ln["c_lost"] and not ln["s_lost"]:
+    # (a client that got its final answer before it had sent the body - the handler did not ask for it - has
+    # to drop the connection: the server cannot know yet and finds out by the close)
+    body_abandoned = ignore_body and expect100 and not client_keeps
+    if server_keeps != client_keeps and not ln["c_lost"] and not ln["s_lost"] and not body_abandoned:
         wire = bytes(ln["str"].out).lower()
         framed = b"content-length:" in wire or b"transfer-encoding:" in wire
         shape = f"http{version}:" + ("HEAD" if method == "HEAD" else str(status)) + (":framed" if framed else ":no-length")
